@@ -42,14 +42,14 @@ def _fault_plan(rng, kinds, nmax=3):
 
 CFG = {
     "C01": dict(
-        profile=dict(name="c01", geom_w=[2, 3, 3, 4, 4, 2, 2, 1], x0_w=[3, 3, 2, 1], where_w=[2, 2, 3, 5],
+        profile=dict(name="c01", geom_w=[2, 3, 3, 4, 4, 2, 2, 1, 6], x0_w=[3, 3, 2, 1], where_w=[2, 2, 3, 5],
                      cons_p=0.33, fam_w=[5, 2, 1, 0, 3, 1, 2]),
         n=dict(quick=128, thorough=4000), faulted=0.25, fault_kinds=["fit", "predict"],
         rule="distinct scenarios whose run completed with >=1 poll and >=1 search step (every target/constraint call and the final log judged)",
     ),
     "C02": dict(
         profile=dict(name="c02", cons_p=1.0, x0_w=[8, 1, 1, 0], x0_infeasible_p=0.1, x0_nearcons_p=0.12, x0_infeasible_near_p=0.12,
-                     geom_w=[3, 3, 2, 3, 3, 1, 1, 1], where_w=[3, 2, 2, 3], noise_w=[4, 1, 2, 2],
+                     geom_w=[3, 3, 2, 3, 3, 1, 1, 1, 3], where_w=[3, 2, 2, 3], noise_w=[4, 1, 2, 2],
                      knobs=dict(n_search=0.5)),
         n=dict(quick=128, thorough=4000),
         nontrivial=lambda r: (r["outcome"] == "completed" and r["n_polls"] >= 1 and r["n_calls"] >= 5) or
@@ -59,7 +59,7 @@ CFG = {
     "C03": dict(
         profile=dict(name="c03", fam_w=[3, 1, 1, 1, 1, 0, 7], budget_kinds=["tiny", "small", "small", "mid", "mid", "large"],
                      knobs=dict(max_iter=0.4, tol_mesh=0.5, complete_poll=0.3, accelerate_mesh=0.4, tol_stall_iters=0.3),
-                     noise_w=[5, 1, 2, 2], cons_p=0.3, cons_w=[2, 2, 2, 2, 1, 2, 4], geom_w=[4, 4, 2, 2, 2, 2, 2, 1]),
+                     noise_w=[5, 1, 2, 2], cons_p=0.3, cons_w=[2, 2, 2, 2, 1, 2, 4], geom_w=[4, 4, 2, 2, 2, 2, 2, 1, 3]),
         n=dict(quick=160, thorough=6000), hang_is_violation=True,
         nontrivial=lambda r: r["outcome"] == "completed" and r["loop_iters"] >= 1,
         rule="distinct scenarios whose run terminated normally after >=1 main-loop iteration (budget, counters, non-progress bound and message judged)",
@@ -71,8 +71,9 @@ CFG = {
     ),
     "C05": dict(
         profile=dict(name="c05", noise=["none", "auto", "declared", "hetero"], noise_w=[1, 3, 3, 3],
-                     fam_w=[6, 2, 1, 0, 1, 1, 0], knobs=dict(noise_final_samples=0.8), budget_min=30,
-                     budget_kinds=["small", "mid", "mid"], cons_p=0.15),
+                     fam_w=[6, 2, 1, 0, 1, 1, 0], knobs=dict(noise_final_samples=0.85), budget_min=30,
+                     nfs_choices=[0, 1, 1, 1, 1, 2, 3, 5, 10], sigma_log10=(-2, 1.0), budget_max=160,
+                     budget_kinds=["small", "mid", "mid", "large"], cons_p=0.15),
         n=dict(quick=96, thorough=3000),
         nontrivial=lambda r: r["outcome"] == "completed" and (r["probes"].get("c05_final_checked", 0) > 0
                                                               or r["probes"].get("noise_test_run", 0) > 0),
@@ -110,7 +111,7 @@ CFG = {
     ),
     "C17": dict(
         profile=dict(name="c17", where_w=[2, 1, 4, 4], noise_w=[7, 1, 1, 1], cons_p=0.35, fam_w=[5, 2, 2, 1, 3, 1, 2],
-                     geom_w=[3, 3, 3, 2, 2, 1, 2, 1]),
+                     geom_w=[3, 3, 3, 2, 2, 1, 2, 1, 3]),
         n=dict(quick=128, thorough=4000),
         nontrivial=lambda r: r["outcome"] == "completed" and r["filter_calls"] >= 3,
         rule="distinct scenarios completed with >=3 candidate-filter calls, every output judged",
